@@ -304,7 +304,7 @@ theorem translated_covered :
       "add_relative_message", "normalise", "concatenate", "cutoff", "merge", "messages_abs", "messages_rel",
       "overwrite_absolute_messages", "overwrite_relative_messages", "pad", "set_channel", "split", "quantise",
       "quantise_note_lengths", "quantise_and_normalise", "scale", "transpose", "get_sequence_duration", "is_empty", "equals",
-      "get_sequence_channel", "is_channel_consistent"] := by
+      "get_sequence_channel", "is_channel_consistent", "__eq__"] := by
   decide
 
 /-- **`Sequence.equals`**: both absolute views are read (regenerating them if stale), the flags are handed on in the order of the
@@ -327,5 +327,12 @@ theorem defaults_pinned :
 /-- `MessageType` in source order is the order the models sort by (`MType.rank`): swapping two members of the Python enum changes the
     regenerated list and breaks this theorem -/
 theorem message_type_order : Gen.messageTypeOrder = MType.names := by decide
+
+/-- **`Sequence.__eq__`** (`a == b` on two sequences): exactly `equals` with every ignore flag `False` — same state, same verdict, same
+    error (audit round 3, O1: `==` had no theorem) -/
+theorem eqDunder_eq (e : Env) (s t : Seq) :
+    Gen.Wrap.eqDunder e s t = Gen.Wrap.equals e s t false false false false := by
+  unfold Gen.Wrap.eqDunder Gen.Wrap.equals View.abs___eq__
+  rfl
 
 end SCoda.WrapTie
